@@ -97,6 +97,18 @@ def monitor(cfg, masks, res):
                 bad.append(('iter_bound', 'slot %d finished with iter %d > %d' % (s, it, B)))
         if a2d and len({it for it, _ in fin_vals.values()}) > 1:
             bad.append(('all_to_done', 'niter %s' % {s: it for s, (it, _) in fin_vals.items()}))
+        # a step finishes only when its own stopping criterion holds (under all_to_done: when everybody's does)
+        cv, fd, fc = masks
+        def bit(m, s, i):
+            return i < W and (m >> (s * W + i)) & 1
+        def raw(s, k):
+            forced = any(bit(fd, s, i) for i in range(k + 1))
+            return (k >= mi or bit(cv, s, k) or forced) and not bit(fc, s, k)
+        for s, (it, _) in fin_vals.items():
+            who = range(n) if a2d else [s]
+            if not all(raw(x, it) for x in who):
+                bad.append(('premature_done', 'slot %d finished at iteration %d although %s' % (
+                    s, it, 'not every step met its stopping criterion' if a2d else 'its stopping criterion is not met')))
         # frame on the data: level values of a finished step are those it had at post_step
         for s, (it, u) in fin_vals.items():
             st = res.steps[s]
